@@ -35,14 +35,14 @@ def run(tier, seed, scale):
                        "every returning caller and the privacy of every element's plain counter"]
     q = tier == "quick"
     phases = [
-        Phase("rel-hot", "c19", "rel", 150000 if q else 1200000, procs=6 if q else 10, min_nontrivial=20000 if q else 150000),
+        Phase("rel-hot", "c19", "rel", 110000 if q else 1200000, procs=6 if q else 10, min_nontrivial=15000 if q else 150000),
         Phase("rel-2cpu", "c19", "rel", 12000 if q else 100000, procs=2 if q else 4, cpus=2, min_nontrivial=1000),
         Phase("rel-1cpu", "c19", "rel", 8000 if q else 80000, procs=2 if q else 4, cpus=1, min_nontrivial=500),
         Phase("dbg-hot", "c19", "dbg", 30000 if q else 300000, procs=3 if q else 6),
         Phase("tsan", "c19", "tsan", 4500 if q else 48000, procs=3 if q else 8, timeout=1500),
         # class X (known finding once.runner-destructor-spins-in-arena-slot): can wedge, so it lives in its own small processes;
         # the watchdog verdict (c19.onceX.hang.*) ends only that process
-        Phase("rel-onceX", "c19", "rel", 1600 if q else 6000, procs=2 if q else 6, args=["--mode", "oncex"], timeout=1500),
+        Phase("rel-onceX", "c19", "rel", 1100 if q else 6000, procs=2 if q else 6, args=["--mode", "oncex"], timeout=1500),
     ]
     if not q:
         phases.append(Phase("asan", "c19", "asan", 80000, procs=6, timeout=1500))
